@@ -2,7 +2,7 @@
 """Expressions: rank 0/1, scalar/vector/tensor valued, cell points and facet points."""
 import basix.ufl
 import numpy as np
-from ufl import Coefficient, Constant, FunctionSpace, Mesh, TrialFunction, grad, outer
+from ufl import Coefficient, Constant, FunctionSpace, Mesh, TrialFunction, as_tensor, grad, outer
 
 cell = "triangle"
 mesh = Mesh(basix.ufl.element("Lagrange", cell, 1, shape=(2,)))
@@ -13,4 +13,10 @@ uv = TrialFunction(Vv)
 k = Constant(mesh)
 pts = np.array([[0.1, 0.2], [0.5, 0.25], [0.0, 1.0]])
 fpts = np.array([[0.25], [0.75]])
-expressions = [(f * k, pts), (grad(f), pts), (outer(g, grad(f)), pts), (grad(u), pts), (outer(uv, g), pts), (grad(f), fpts), (u * g, fpts)]
+# tensor-valued, not symmetric, with terminals whose table is identically zero (second derivatives of P1): the zero-table
+# elimination rebuilds the expression and must keep the component order
+V1 = FunctionSpace(mesh, basix.ufl.element("Lagrange", cell, 1))
+p1, q1 = Coefficient(V1), TrialFunction(V1)
+zt = [(as_tensor([[p1, p1.dx(0).dx(0)], [p1.dx(1), 2 * p1.dx(0)]]), pts),
+      (as_tensor([[q1.dx(1), q1, q1.dx(0).dx(1)], [q1.dx(0), q1.dx(1).dx(1), 3 * q1]]), pts)]
+expressions = zt + [(f * k, pts), (grad(f), pts), (outer(g, grad(f)), pts), (grad(u), pts), (outer(uv, g), pts), (grad(f), fpts), (u * g, fpts)]
